@@ -547,13 +547,13 @@ int main(int argc, char** argv) {
     g_hooks.event = &on_event;
     vh::arm_stalls(r, {P_RINGCHAN_SEND_AFTER_PUSH, P_RINGCHAN_RECV_BEFORE_IDLE, P_RING_PUSH_CLAIMED, P_RING_POP_CLAIMED,
                        P_RING_BATCH_PUSH_CLAIMED, P_RING_BATCH_POP_CLAIMED, P_SPSC_PUSH, P_SPSC_POP});
-    vh::start_supervisor(on_stuck);
 
     std::vector<std::thread> os;
     for (int i = g_npp; i < g_np; ++i) os.emplace_back([i] { os_producer(g_p[i]); });
     std::thread coord([rounds] { coordinator(rounds); });
     vh::VCpus vc;
     vc.run(g_nv, nullptr, [&](int v) {
+        if (v == 0) vh::start_supervisor(on_stuck);     // all vCPUs are online (start-up alone can take seconds under load)
         std::vector<join_handle*> jh;
         for (int i = 0; i < g_nc; ++i)
             if (g_c[i].vcpu == v) jh.push_back(thread_enable_join(thread_create(consumer_main, &g_c[i], 256 * 1024)));
@@ -591,6 +591,7 @@ int main(int argc, char** argv) {
                     break;
                 }
     uint64_t pend = g_ch->pending();
+    vh::stop_supervisor();          // on_stuck() reads the channel
     delete g_ch;
 
     c_turns.add(total_sent / g_cap);
